@@ -396,6 +396,28 @@ func c10Specs(thorough bool) []c10Case {
 			}
 		}
 	}
+	// file names whose encoded-words run through the whole symbol set of the B and Q encodings: every code point
+	// U+00A1..U+00FF and a sample of 3- and 4-byte ones at the three base64 alignments
+	sweep := []rune{0x0100, 0x03A9, 0x07FF, 0x0800, 0x0FFF, 0x3FFF, 0x4E2D, 0xFFFD, 0x1F600, 0x10FFFF}
+	for u := rune(0xA1); u <= 0xFF; u++ {
+		sweep = append(sweep, u)
+	}
+	for ui, u := range sweep {
+		for al, pre := range []string{"", "a", "ab"} {
+			for _, menc := range []string{"qp", "b64"} {
+				s := mb.Msg{Enc: menc, Parts: []mb.Part{{Type: "text/plain", Content: texts[0]}}}
+				f := mb.File{Name: pre + string(u) + ".bin", Content: bins[ui%len(bins)]}
+				if (ui+al)%2 == 0 {
+					s.Attach = []mb.File{f}
+				} else {
+					s.Embeds = []mb.File{f}
+				}
+				sub := subjects[ui%len(subjects)]
+				s.Subject = &sub
+				cs = append(cs, c10Case{Spec: s})
+			}
+		}
+	}
 	// every file name as attachment and as embed, in every message encoding
 	for ni, nm := range names {
 		for _, menc := range encs {
@@ -483,7 +505,7 @@ func init() {
 	vf.Register(&vf.Check{
 		ID: "C10", Title: "render → parse → render preserves the message",
 		Run: func(r *vf.Run) {
-			r.SetRule("builder programs inside the parser's feature set: body text/plain with optional text/html alternative × 0..2 attachments × 0..2 embeds × message encoding {QP, base64, 8bit, 7bit} × per-part encodings × 6 text contents ('=', dots, UTF-8, long lines, LF-only, no final newline) plus every body part empty / one byte / a bare line break in every structure × 4 file contents × 22 file names (inner / leading / trailing blanks and Unicode spaces, non-ASCII, ';', '=') × every combination of Content-ID / description / media-type option on attachments and embeds × 5 subjects × 5 display names (RFC 2047, comma, 80 chars) × To and Cc lists of different lengths parsed under every map-iteration start; each is rendered, the rendering is checked with the independent reader (precondition), parsed with EMLToMsgFromReader, compared with the model through the Msg getters, rendered again and compared again through the independent reader; distinct by program")
+			r.SetRule("builder programs inside the parser's feature set: body text/plain with optional text/html alternative × 0..2 attachments × 0..2 embeds × message encoding {QP, base64, 8bit, 7bit} × per-part encodings × 6 text contents ('=', dots, UTF-8, long lines, LF-only, no final newline) plus every body part empty / one byte / a bare line break in every structure × 4 file contents × 22 file names (inner / leading / trailing blanks and Unicode spaces, non-ASCII, ';', '=') and a sweep of 105 code points (all of U+00A1..U+00FF, 3- and 4-byte ones) at the three base64 alignments under both header encoders × every combination of Content-ID / description / media-type option on attachments and embeds × 5 subjects × 5 display names (RFC 2047, comma, 80 chars) × To and Cc lists of different lengths parsed under every map-iteration start; each is rendered, the rendering is checked with the independent reader (precondition), parsed with EMLToMsgFromReader, compared with the model through the Msg getters, rendered again and compared again through the independent reader; distinct by program")
 			r.Assume("messages whose first rendering is already wrong are C01's business and skipped here", "the parser may choose other transfer encodings on re-rendering; contents are compared decoded (QP text modulo LF->CRLF)")
 			cases := c10Specs(r.Thorough)
 			r.Extra("programs", len(cases))
